@@ -10,6 +10,7 @@ Each live driver is re-tuned (range, reference variance re-assigned) and judged 
 and a step with a zero-variance committee must leave delta at max_delta.
 Committees are also handed over as plain lists / tuples, and half of the drivers have atoms of different masses.
 Committee forces are scaled by 1e-14 .. 1e4 (overall or per coordinate): the relative spread does not depend on it.
+Two thirds of the drivers read their committees under keys of their own (subclass override / re-assigned keywords).
 """
 from __future__ import annotations
 
@@ -31,7 +32,7 @@ ASSUMPTIONS = [
     "'large variance' = variance >= 64 x reference (update factor <= 1e-19): delta within 1e-15*(max-min) + 1e-12*min_delta of min_delta; the lower range bound is checked to 4 ulp of min_delta",
     "committee inputs whose variation is 0/0 (all members exactly zero) are outside the domain and not judged",
 ]
-REQUIRED = {"committees_with_forces_below_1e-8": 100, "calls_after_retuning": 500, "update_calls": 2000, "anchor_zero": 50, "anchor_reference": 50, "anchor_large": 50, "monotone_pairs": 1000, "fallback_calls": 20, "per_coordinate_calls": 200, "in_step_calls": 10}
+REQUIRED = {"drivers_with_their_own_committee_keys": 50, "committees_with_forces_below_1e-8": 100, "calls_after_retuning": 500, "update_calls": 2000, "anchor_zero": 50, "anchor_reference": 50, "anchor_large": 50, "monotone_pairs": 1000, "fallback_calls": 20, "per_coordinate_calls": 200, "in_step_calls": 10}
 SHARD_TIMEOUT = {"quick": 600, "thorough": 2400}
 
 EXPECT: dict[int, dict] = {}  # id(driver) -> what the workload fed it
@@ -111,8 +112,26 @@ def make_driver(rng, lo, hi, ref, scheme, fn, natoms):
     atoms.calc = calc
     if rng.random() < 0.5:
         atoms.set_masses(rng.uniform(1, 200, natoms))  # several species: the adapted delta is the same for all of them
-    drv = AdaptiveForceBias(atoms, min_delta=lo, max_delta=hi, temperature=300.0, scheme=scheme, reference_variance=ref, update_function=fn, seed=derive_seed("c18", lo, hi, ref))
+    # the committee calculator at hand may publish its data under other keys than the defaults: a subclass that overrides
+    # the two documented keywords, or the keywords re-assigned on the driver object
+    kind = int(rng.integers(0, 3))
+    cls = AdaptiveForceBias
+    if kind == 1:
+        cls = type("MyCommitteeForceBias", (AdaptiveForceBias,), {"forces_variance_keyword": "my_forces_committee", "energies_variance_keyword": "my_energy_committee"})
+    drv = cls(atoms, min_delta=lo, max_delta=hi, temperature=300.0, scheme=scheme, reference_variance=ref, update_function=fn, seed=derive_seed("c18", lo, hi, ref))
+    if kind == 2:
+        try:
+            drv.forces_variance_keyword = "forces_of_the_members"
+            drv.energies_variance_keyword = "energies_of_the_members"
+        except AttributeError:
+            kind = 0  # (a class that does not let its instances override the keywords: defaults then)
+    KEYS[id(drv)] = {0: ("forces_comm", "energies"), 1: ("my_forces_committee", "my_energy_committee"), 2: ("forces_of_the_members", "energies_of_the_members")}[kind]
+    if kind:
+        COUNTS["drivers_with_their_own_committee_keys"] = COUNTS.get("drivers_with_their_own_committee_keys", 0) + 1
     return drv, atoms, calc
+
+
+KEYS: dict = {}
 
 
 COUNTS: dict = {}
@@ -142,18 +161,20 @@ def feed(drv, atoms, calc, rng, scheme, v, how):
         # the committee as an array, or as the plain list / tuple of per-member arrays a committee assembled from several
         # ordinary calculators hands over
         shape_kind = int(rng.integers(0, 3))
-        calc.extra = {"forces_comm": comm if shape_kind == 0 else ([m for m in comm] if shape_kind == 1 else tuple(m.tolist() for m in comm))}
+        fkey = KEYS.get(id(drv), ("forces_comm", "energies"))[0]
+        calc.extra = {fkey: comm if shape_kind == 0 else ([m for m in comm] if shape_kind == 1 else tuple(m.tolist() for m in comm))}
         atoms.positions += 1e-3  # invalidate the cache so results are rebuilt
         atoms.get_potential_energy()
-        c = np.asarray(atoms.calc.results["forces_comm"], dtype=float)
+        c = np.asarray(atoms.calc.results[fkey], dtype=float)
         return np.std(c, axis=0) / np.mean(np.abs(c), axis=0)
     e0 = float(rng.normal())
     dd = float(v) * n
     es = np.array([e0 + dd, e0 - dd])
-    calc.extra = {"energies": es if rng.random() < 0.5 else es.tolist()}
+    ekey = KEYS.get(id(drv), ("forces_comm", "energies"))[1]
+    calc.extra = {ekey: es if rng.random() < 0.5 else es.tolist()}
     atoms.positions += 1e-3
     atoms.get_potential_energy()
-    return float(np.std(np.asarray(atoms.calc.results["energies"], dtype=float))) / n
+    return float(np.std(np.asarray(atoms.calc.results[ekey], dtype=float))) / n
 
 
 def vclass(v, ref):
